@@ -203,6 +203,8 @@ harnesses! {
     e2n_c18_declared_signers [native 0] => battery::c18_declared_signers;
     e2n_c07_add_output [native 0] => battery::c07_add_output;
     e2n_c05_change_step [native 0] => battery::c05_change_step;
+    e2n_c16_hash_eq [native 0] => battery::c16_hash_eq;
+    e2n_c19_return_min_ada [native 0] => battery::c19_return_min_ada;
     e2n_c16_repeat_build [native 0] => battery::c16_repeat_build;
     e2n_c08_largest_first [native 0] => battery::c08_largest_first;
     e2n_c08_random_improve [native 0] => battery::c08_random_improve;
@@ -211,7 +213,7 @@ harnesses! {
     e2n_c02_accepts [native 0] => c02::c02_accepts;
     e2n_c02_reser [native 0] => c02::c02_reser;
     e2n_c02_lenient [native 0] => c02::c02_lenient;
-    e2n_c02_lenient_scan [native 0] => c02::c02_lenient_scan;
+    e2n_c02_lenient_probe [native 0] => c02::c02_lenient_probe;
     e2n_c02_battery [native 0] => c02::c02_battery;
     e2n_c02_wrappers [native 0] => c02::c02_wrappers;
     e2n_c02_text_battery [native 0] => c02::c02_text_battery;
